@@ -394,6 +394,17 @@ def run(ctx):
         except Exception as e:
             got, back = type(e).__name__, None
         ops.append(op); impl.append(got)
+        # the keyword form of the same slot (`rp.Slot(node_index=0, node_name='localhost', cores=[3])`, as the scheduling
+        # tutorial writes it) is the slot of the dictionary form
+        try:
+            kw = Slot(**dict(copy.deepcopy(d), cores=copy.deepcopy(cr), gpus=copy.deepcopy(gr)))
+            kwc = slot_canon(kw.as_dict())
+            if not all(isinstance(x, RO) for x in list(kw.cores) + list(kw.gpus)): kwc = 'cores/gpus are not RO objects: %s / %s' % (kw.cores, kw.gpus)
+        except Exception as e:
+            kwc = type(e).__name__
+        if kwc != got:
+            ctx.fail('slots:keyword-form-differs-from-dictionary-form', 'Slot(**d) gives %s, Slot(from_dict=d) gives %s' % (kwc, got),
+                     {'kind': 'slot_kw', 'd': d, 'cores': cm, 'gpus': gm})
         ctx.case(op, nontrivial=bool(gr) and [x['index'] if isinstance(x, dict) else x for x in gm['items']] != [x['index'] if isinstance(x, dict) else x for x in cm['items']])
         if isinstance(got, dict) and back != got:
             ctx.fail('slots:dict-roundtrip-changes-slot', 'Slot %s -> as_dict -> Slot gives %s' % (got, back),
@@ -541,6 +552,21 @@ def replay(ctx, data):
         got   = [plain(x) for x in convert_slots_to_old([copy.deepcopy(x) for x in items])]
         print('one by one:', alone); print('as a list :', got)
         return got == alone and not any(x.get('version') for x in got)
+    if i['kind'] == 'slot_kw':
+        from radical.pilot.resource_config import RO, Slot
+        def real(m):
+            return [x if m['form'] == 'ints' else ({'index': x['index'], 'occupation': x['occ'] / 16.0} if m['form'] == 'dicts'
+                    else RO(index=x['index'], occupation=x['occ'] / 16.0)) for x in m['items']]
+        outs = []
+        for how in ('dict', 'kw'):
+            try:
+                a = dict(copy.deepcopy(i['d']), cores=real(i['cores']), gpus=real(i['gpus']))
+                sl = Slot(from_dict=a) if how == 'dict' else Slot(**a)
+                outs.append((slot_canon(sl.as_dict()), all(isinstance(x, RO) for x in list(sl.cores) + list(sl.gpus))))
+            except Exception as e:
+                outs.append((type(e).__name__, None))
+        print(outs)
+        return outs[0] == outs[1]
     if i['kind'] == 'to_new_list':
         from radical.pilot.utils.misc import convert_slots_to_new
         def fix(o):       # JSON turned the (index, occupation) tuples into lists
